@@ -212,3 +212,32 @@ Theorem C11_oracle_sound_partial : forall (A : Type) (ops : app_ops A) (p : para
   r = R11_supervision_never_ends.
 Proof. exact c11_open. Qed.
 Print Assumptions C11_oracle_sound_partial.
+
+(* ------------------------------------------------------------------------------------------ *)
+(* ORACLE SOUNDNESS of the liveness rule (Proofs/C11Liveness.v), same hypotheses as above: the rule
+   R11_supervision_never_ends - "a poll in CheckTokenPass that looks at the receive buffer, sees nothing new and
+   comes later than one slot time after the last instant at which the station can have seen anything happen
+   must retry, remove or leave" - is never reported on a transcript of the model, for ALL input histories.
+   The proof keeps, while the pass is supervised, an exact account of the station's bookkeeping against the
+   monitor's (invariant LV): last_bus_activity <= l_ref and >= l_txend, and pending_bytes covers the receive
+   buffer unless the monitor itself expects a spurious growth (l_spur); it is established by every poll that
+   transmits and ends in CheckTokenPass (enter_ctp_covered) and kept by every poll that stays there
+   (stay_ctp: exact last_bus_activity / pending_bytes after such a poll); with LV the monitor's "expired"
+   implies C11Proofs.slot_expired, and C11_check_pass_poll then forces a retry / removal in that poll. *)
+From PB Require Import C11Liveness.
+
+Theorem C11_supervision_liveness_sound : forall (A : Type) (ops : app_ops A) (p : params),
+  apps_total A ops -> builder_valid p -> app_sends_data A ops ->
+  forall (apps : list A) (ins : list minput), ins_ok 0 ins ->
+  forall k r, In (k, r) (monitor p (length apps) (model_transcript A ops p apps ins)) -> r <> R11_supervision_never_ends.
+Proof. exact supervision_liveness_sound. Qed.
+Print Assumptions C11_supervision_liveness_sound.
+
+(* ORACLE SOUNDNESS, FULL for C11: no rule of C11 is reported on a transcript of the model. *)
+Theorem C11_oracle_sound : forall (A : Type) (ops : app_ops A) (p : params),
+  apps_total A ops -> builder_valid p -> app_sends_data A ops ->
+  forall (apps : list A) (ins : list minput), ins_ok 0 ins ->
+  forall k r, In (k, r) (monitor p (length apps) (model_transcript A ops p apps ins)) -> rule_prop r <> PC11.
+Proof. exact c11_oracle_sound. Qed.
+Print Assumptions C11_oracle_sound.
+
